@@ -156,7 +156,8 @@ DECODER_NEEDS = {"ReadCd": ("est", "mcsb", "c2ei", "scsb")}
 
 
 class FacadeUnit(Unit):
-    properties = ("C13", "C07", "C17")
+    properties = ("C13", "C07", "C17", "C09")
+    frame_check = True
     assumptions = ("assumed contract of device.execute as seen from the facade: records (cmd, en_raw_sense); may overwrite the contents of cmd.datain in place; changes nothing else; returns or raises",)
 
     def __init__(self, method):
